@@ -24,11 +24,86 @@ func mkTask(id int) task.Task {
 	return t
 }
 
+// taskPool hands out the task objects of one case. A generator that builds a fresh object for every
+// add never passes the very same object (pointer) twice; the pool does: with chance pct (or always,
+// when force is set) an id that was used before comes back as the object that was used before. An
+// ordinary list holds a value as often as it was added, whether or not it is the same object.
+type taskPool struct {
+	last  map[int]task.Task
+	pct   int
+	rng   *Rng
+	force bool
+}
+
+func newTaskPool(rng *Rng, pct int) *taskPool {
+	return &taskPool{last: map[int]task.Task{}, pct: pct, rng: rng}
+}
+
+func (p *taskPool) get(id int) task.Task {
+	if p == nil {
+		return mkTask(id)
+	}
+	if t, ok := p.last[id]; ok && (p.force || (p.pct > 0 && p.rng != nil && p.rng.Intn(100) < p.pct)) {
+		return t
+	}
+	t := mkTask(id)
+	p.last[id] = t
+	return t
+}
+
 func taskID(t task.Task) string {
 	if t == nil {
 		return "nil"
 	}
 	return t.GetId()
+}
+
+// c05Join writes a list of slots ("nil" or a number); a maximal run of >= 3 consecutive ascending
+// numbers a,a+1,..,b is written "a..b" (the driver prints and parses the same form): the
+// observations of a queue of thousands of tasks stay short.
+func c05Join(ids []string) string {
+	if len(ids) == 0 {
+		return "-"
+	}
+	var sb strings.Builder
+	num := func(s string) (int, bool) {
+		n, err := strconv.Atoi(s)
+		return n, err == nil && n >= 0 && strconv.Itoa(n) == s
+	}
+	for i := 0; i < len(ids); {
+		if i > 0 {
+			sb.WriteByte(',')
+		}
+		v, ok := num(ids[i])
+		j := i + 1
+		if ok {
+			for j < len(ids) {
+				w, ok2 := num(ids[j])
+				if !ok2 || w != v+(j-i) {
+					break
+				}
+				j++
+			}
+		}
+		switch {
+		case j-i >= 3:
+			sb.WriteString(ids[i] + ".." + ids[j-1])
+		case j-i == 2:
+			sb.WriteString(ids[i] + "," + ids[i+1])
+		default:
+			sb.WriteString(ids[i])
+		}
+		i = j
+	}
+	return sb.String()
+}
+
+func c05JoinInts(xs []int) string {
+	ss := make([]string, len(xs))
+	for i, x := range xs {
+		ss[i] = strconv.Itoa(x)
+	}
+	return c05Join(ss)
 }
 
 // qObs is the observation function of C05: Iterate / Length / GetFirst / GetLast after each op.
@@ -37,7 +112,7 @@ func qObs(q *queue.TaskQueue, cur, ret string) string {
 		var ids []string
 		q.Iterate(func(t task.Task) { ids = append(ids, taskID(t)) })
 		return fmt.Sprintf("items=%s len=%d first=%s last=%s cur=%s ret=%s",
-			joinStrs(ids), q.Length(), taskID(q.GetFirst()), taskID(q.GetLast()), cur, ret)
+			c05Join(ids), q.Length(), taskID(q.GetFirst()), taskID(q.GetLast()), cur, ret)
 	})
 }
 
@@ -45,7 +120,7 @@ func qItems(q *queue.TaskQueue) string {
 	return Catch(func() string {
 		var ids []string
 		q.Iterate(func(t task.Task) { ids = append(ids, taskID(t)) })
-		return fmt.Sprintf("items=%s len=%d", joinStrs(ids), q.Length())
+		return fmt.Sprintf("items=%s len=%d", c05Join(ids), q.Length())
 	})
 }
 
@@ -63,7 +138,20 @@ type workerQ struct {
 	started bool
 
 	poisoned bool
+	stuck    bool // the worker did not come back within workerWait: it is not asked again
 	parked   *verifsched.Arrival
+
+	pool *taskPool // nil: a fresh task object for every add
+}
+
+func (w *workerQ) task(id int) task.Task { return w.pool.get(id) }
+
+func (w *workerQ) tasks(ids []int) []task.Task {
+	var ts []task.Task
+	for _, i := range ids {
+		ts = append(ts, w.task(i))
+	}
+	return ts
 }
 
 func newWorkerQ(name string) *workerQ {
@@ -86,8 +174,16 @@ func newWorkerQ(name string) *workerQ {
 	return w
 }
 
+// workerWait: how long the harness waits for the worker goroutine of a queue (a lower bound on
+// patience, not an assertion: on a loaded machine a hand-over may take seconds). A worker that did
+// not come back once is not asked again (the case goes on without it).
+const workerWait = 12 * time.Second
+
 // pick lets the parked worker take the head task; returns the id handed to the handler.
 func (w *workerQ) pick() string {
+	if w.stuck {
+		return "stuck"
+	}
 	if w.cur != "nil" {
 		return "busy"
 	}
@@ -110,7 +206,8 @@ func (w *workerQ) pick() string {
 				return "unexpected-point-" + a.Name
 			}
 			a.Release()
-		case <-time.After(3 * time.Second):
+		case <-time.After(workerWait):
+			w.stuck = true
 			return "timeout-loop"
 		}
 	}
@@ -121,7 +218,8 @@ func (w *workerQ) pick() string {
 		case id := <-w.picked:
 			w.cur = id
 			return id
-		case <-time.After(3 * time.Second):
+		case <-time.After(workerWait):
+			w.stuck = true
 			return "timeout-handler"
 		}
 	}
@@ -130,6 +228,9 @@ func (w *workerQ) pick() string {
 func (w *workerQ) answer(res queue.TaskResult) string {
 	if w.cur == "nil" {
 		return "idle"
+	}
+	if w.stuck {
+		return "stuck"
 	}
 	res.AfterHandle = func() { w.applied <- struct{}{} }
 	w.result <- res
@@ -144,7 +245,8 @@ func (w *workerQ) answer(res queue.TaskResult) string {
 		case <-w.applied:
 			w.cur = "nil"
 			return "-"
-		case <-time.After(3 * time.Second):
+		case <-time.After(workerWait):
+			w.stuck = true
 			return "timeout-apply"
 		}
 	}
@@ -168,7 +270,7 @@ func (w *workerQ) filter(fn func(task.Task) bool) string {
 			}
 		case r := <-done:
 			return r
-		case <-time.After(3 * time.Second):
+		case <-time.After(workerWait):
 			return "timeout-filter"
 		}
 	}
@@ -258,22 +360,14 @@ func (w *workerQ) iterRemove(park, id int) ([]string, int, string) {
 // sharedBacking builds the three task lists of a handler result as consecutive sub-slices of ONE
 // backing array with spare capacity behind each of them (what a handler that fills one buffer and
 // slices it hands back): an append to one of them that is not a copy overwrites the next.
-func sharedBacking(h, a, tl []int) ([]task.Task, []task.Task, []task.Task) {
+func sharedBacking(w *workerQ, h, a, tl []int) ([]task.Task, []task.Task, []task.Task) {
 	buf := make([]task.Task, 0, len(h)+len(a)+len(tl)+16)
 	for _, l := range [][]int{h, a, tl} {
 		for _, i := range l {
-			buf = append(buf, mkTask(i))
+			buf = append(buf, w.task(i))
 		}
 	}
 	return buf[0:len(h)], buf[len(h) : len(h)+len(a)], buf[len(h)+len(a) : len(h)+len(a)+len(tl)]
-}
-
-func idsTasks(ids []int) []task.Task {
-	var ts []task.Task
-	for _, i := range ids {
-		ts = append(ts, mkTask(i))
-	}
-	return ts
 }
 
 // c05Op applies one generated op to the real queue; returns the protocol line and the answer.
@@ -287,16 +381,16 @@ func c05Op(c *Case, w *workerQ, op string, args []int, st string, h, a, tl []int
 	switch op {
 	case "addFirst":
 		line = fmt.Sprintf("addFirst %d", args[0])
-		ret = Catch(func() string { q.AddFirst(mkTask(args[0])); return "-" })
+		ret = Catch(func() string { q.AddFirst(w.task(args[0])); return "-" })
 	case "addLast":
 		line = fmt.Sprintf("addLast %d", args[0])
-		ret = Catch(func() string { q.AddLast(mkTask(args[0])); return "-" })
+		ret = Catch(func() string { q.AddLast(w.task(args[0])); return "-" })
 	case "addAfter":
 		line = fmt.Sprintf("addAfter %d %d", args[0], args[1])
-		ret = Catch(func() string { q.AddAfter(strconv.Itoa(args[0]), mkTask(args[1])); return "-" })
+		ret = Catch(func() string { q.AddAfter(strconv.Itoa(args[0]), w.task(args[1])); return "-" })
 	case "addBefore":
 		line = fmt.Sprintf("addBefore %d %d", args[0], args[1])
-		ret = Catch(func() string { q.AddBefore(strconv.Itoa(args[0]), mkTask(args[1])); return "-" })
+		ret = Catch(func() string { q.AddBefore(strconv.Itoa(args[0]), w.task(args[1])); return "-" })
 	case "remove":
 		line = fmt.Sprintf("remove %d", args[0])
 		ret = Catch(func() string { return taskID(q.Remove(strconv.Itoa(args[0]))) })
@@ -307,7 +401,7 @@ func c05Op(c *Case, w *workerQ, op string, args []int, st string, h, a, tl []int
 		line = "removeLast"
 		ret = Catch(func() string { return taskID(q.RemoveLast()) })
 	case "filter":
-		line = "filter " + joinInts(args)
+		line = "filter " + c05JoinInts(args)
 		keep := map[string]bool{}
 		for _, i := range args {
 			keep[strconv.Itoa(i)] = true
@@ -320,15 +414,15 @@ func c05Op(c *Case, w *workerQ, op string, args []int, st string, h, a, tl []int
 		line = "pick"
 		ret = w.pick()
 	case "result":
-		line = fmt.Sprintf("result %s h=%s a=%s t=%s", st, joinInts(h), joinInts(a), joinInts(tl))
+		line = fmt.Sprintf("result %s h=%s a=%s t=%s", st, c05JoinInts(h), c05JoinInts(a), c05JoinInts(tl))
 		status := map[string]queue.TaskStatus{"success": queue.Success, "fail": queue.Fail,
 			"repeat": queue.Repeat, "keep": queue.Keep}[st]
 		if w.cur == "nil" {
 			ret = "-"
 		} else {
-			ht, at, tt := idsTasks(h), idsTasks(a), idsTasks(tl)
+			ht, at, tt := w.tasks(h), w.tasks(a), w.tasks(tl)
 			if len(args) > 0 && args[0] == 1 {
-				ht, at, tt = sharedBacking(h, a, tl)
+				ht, at, tt = sharedBacking(w, h, a, tl)
 				c.Note("result:shared-backing-array")
 			}
 			ret = w.answer(queue.TaskResult{Status: status, HeadTasks: ht, AfterTasks: at, TailTasks: tt})
@@ -343,8 +437,8 @@ func c05Op(c *Case, w *workerQ, op string, args []int, st string, h, a, tl []int
 			c.Oracle("panic")
 			return
 		}
-		c.Op(line, fmt.Sprintf("seen=%s blocked=%d ", joinStrs(seen), blocked)+qObs(q, w.cur, r))
-		c.Oracle("iter seen=" + joinStrs(seen))
+		c.Op(line, fmt.Sprintf("seen=%s blocked=%d ", c05Join(seen), blocked)+qObs(q, w.cur, r))
+		c.Oracle("iter seen=" + c05Join(seen))
 		c.Oracle(qItems(q))
 		return
 	}
@@ -424,8 +518,359 @@ func c05Dump(c *Case, rng *Rng) {
 	c.Note("dump")
 }
 
+// ---------------------------------------------------------------- several live queues in one case
+
+// qset is a set of live queues of one case. The queues of a process share the package: whatever one
+// queue does must leave every other queue exactly as its own ordinary list says. `sel k` makes queue k
+// the one the following op lines address; after every op the items and length of EVERY other queue
+// are put to the property oracle as well (`oracle q=j items=… len=…`).
+type qset struct {
+	c   *Case
+	ws  []*workerQ
+	cur int
+}
+
+func (s *qset) op(k int, op string, args []int, st string, h, a, tl []int) {
+	w := s.ws[k]
+	if w.poisoned {
+		return
+	}
+	if k != s.cur {
+		s.c.Op(fmt.Sprintf("sel %d", k), "-")
+		s.cur = k
+	}
+	c05Op(s.c, w, op, args, st, h, a, tl)
+	for j, o := range s.ws {
+		if j != k && !o.poisoned {
+			s.c.Oracle(fmt.Sprintf("q=%d %s", j, qItems(o.q)))
+		}
+	}
+}
+
+func headID(q *queue.TaskQueue) (int, bool) {
+	n, err := strconv.Atoi(Catch(func() string { return taskID(q.GetFirst()) }))
+	return n, err == nil
+}
+
+func lastID(q *queue.TaskQueue) (int, bool) {
+	n, err := strconv.Atoi(Catch(func() string { return taskID(q.GetLast()) }))
+	return n, err == nil
+}
+
+var c05DrainRoutes = []string{"removeLast", "removeFirst", "removeHeadById", "filter", "success"}
+
+// shrink takes tasks out of queue k by one route until at most `left` are left (at most maxOps ops):
+// RemoveLast, RemoveFirst, Remove(id of the head), one Filter, or the worker handling the head with
+// Success. Every step is an ordinary op line with its observations and oracle lines.
+func (s *qset) shrink(k int, route string, left, maxOps int) {
+	w := s.ws[k]
+	s.c.Note("shrink:" + route)
+	for n := 0; n < maxOps && !w.poisoned; n++ {
+		l := w.q.Length()
+		if l <= left {
+			return
+		}
+		switch route {
+		case "removeLast":
+			s.op(k, "removeLast", nil, "", nil, nil, nil)
+		case "removeFirst":
+			s.op(k, "removeFirst", nil, "", nil, nil, nil)
+		case "removeHeadById":
+			if id, ok := headID(w.q); ok {
+				s.op(k, "remove", []int{id}, "", nil, nil, nil)
+			} else {
+				s.op(k, "removeFirst", nil, "", nil, nil, nil)
+			}
+		case "filter":
+			// keep the ids of the first `left` tasks
+			var keep []int
+			i := 0
+			w.q.Iterate(func(t task.Task) {
+				if i < left {
+					if id, err := strconv.Atoi(taskID(t)); err == nil {
+						keep = append(keep, id)
+					}
+				}
+				i++
+			})
+			s.op(k, "filter", keep, "", nil, nil, nil)
+			return
+		case "success":
+			if w.cur == "nil" {
+				s.op(k, "pick", nil, "", nil, nil, nil)
+				if w.cur == "nil" || w.stuck {
+					return
+				}
+			}
+			s.op(k, "result", nil, "success", nil, nil, nil)
+			if w.stuck {
+				return
+			}
+		}
+	}
+}
+
+// c05Set: a history over 2..3 live queues that share the task ids 1..4 (and, with a pool, the task
+// objects), with whole-queue drains by every removal route followed by refills.
+func c05Set(c *Case, rng *Rng) {
+	nq := rng.Range(2, 3)
+	pool := newTaskPool(rng, PickOne(rng, []int{0, 0, 50}))
+	s := &qset{c: c}
+	for i := 0; i < nq; i++ {
+		w := newWorkerQ(fmt.Sprintf("c05s-%d-%d", c.Idx, i))
+		w.pool = pool
+		defer w.close()
+		s.ws = append(s.ws, w)
+	}
+	withWorker := rng.Chance(30)
+	bias := PickOne(rng, c05DrainRoutes)
+	c.Desc = fmt.Sprintf("%d live queues, drains mostly by %s", nq, bias)
+	nops := rng.Range(6, 24)
+	next := 5
+	idOps, drains := 0, 0
+	id := func() int { return rng.Range(1, 4) }
+	fresh := func() int {
+		if rng.Chance(70) {
+			next++
+			return next
+		}
+		return id()
+	}
+	for i := 0; i < nops; i++ {
+		k := rng.Intn(nq)
+		w := s.ws[k]
+		r := rng.Intn(100)
+		switch {
+		case r < 30:
+			s.op(k, "addLast", []int{fresh()}, "", nil, nil, nil)
+		case r < 36:
+			s.op(k, "addFirst", []int{fresh()}, "", nil, nil, nil)
+		case r < 42:
+			idOps++
+			s.op(k, "addAfter", []int{id(), fresh()}, "", nil, nil, nil)
+		case r < 48:
+			idOps++
+			s.op(k, "addBefore", []int{id(), fresh()}, "", nil, nil, nil)
+		case r < 56:
+			idOps++
+			s.op(k, "remove", []int{id()}, "", nil, nil, nil)
+		case r < 61:
+			s.op(k, "removeFirst", nil, "", nil, nil, nil)
+		case r < 66:
+			s.op(k, "removeLast", nil, "", nil, nil, nil)
+		case r < 69:
+			var keep []int
+			for j := 1; j <= next; j++ {
+				if rng.Chance(70) {
+					keep = append(keep, j)
+				}
+			}
+			s.op(k, "filter", keep, "", nil, nil, nil)
+		case r < 72:
+			idOps++
+			s.op(k, "get", []int{id()}, "", nil, nil, nil)
+		case r < 90:
+			route := bias
+			if rng.Chance(40) {
+				route = PickOne(rng, c05DrainRoutes)
+			}
+			if route == "success" && !withWorker {
+				route = "removeHeadById"
+			}
+			drains++
+			s.shrink(k, route, 0, 40)
+		default:
+			if !withWorker {
+				s.op(k, "addLast", []int{id()}, "", nil, nil, nil)
+				continue
+			}
+			if w.cur == "nil" {
+				s.op(k, "pick", nil, "", nil, nil, nil)
+			} else {
+				idOps++
+				st := PickOne(rng, []string{"success", "success", "keep", "fail", "repeat"})
+				lst := func() []int {
+					var l []int
+					for j := rng.Intn(3); j > 0; j-- {
+						l = append(l, fresh())
+					}
+					return l
+				}
+				s.op(k, "result", nil, st, lst(), lst(), lst())
+			}
+		}
+	}
+	c.Nontrivial = nops >= 3 && (idOps > 0 || drains > 0)
+	c.Note(fmt.Sprintf("set:%d-queues", nq))
+}
+
+// c05Burst: one queue that grows to hundreds or thousands of tasks and is drained again, phase by
+// phase, every single step observed. The ids of a growth phase are consecutive, so the observations
+// stay short (see c05Join). `nominal` is the life of a queue in the operator: a burst of events
+// queued at the tail (AddLast, TailTasks of a result), then the worker (Success = removal by id) and
+// callers take them out again; the other cases mix every growth and removal route.
+func c05Burst(c *Case, rng *Rng, maxPeak int, worker bool) {
+	w := newWorkerQ(fmt.Sprintf("c05b-%d", c.Idx))
+	defer w.close()
+	s := &qset{c: c, ws: []*workerQ{w}}
+	q := w.q
+	nominal := rng.Chance(50)
+	peak := rng.Range(maxPeak*2/5, maxPeak)
+	if !nominal && rng.Chance(40) {
+		peak = rng.Range(20, maxPeak*2/5)
+	}
+	next := 0
+	budget := 3*peak + 200 // ops
+	// a panic inside withLock leaves q.m locked for ever: never touch the queue of a poisoned case again
+	qlen := func() int {
+		if w.poisoned {
+			return 0
+		}
+		return q.Length()
+	}
+	grow := func(k int, route string) {
+		c.Note("grow:" + route)
+		for k > 0 && budget > 0 && !w.poisoned {
+			if (w.stuck || !worker) && route == "tailTasks" {
+				route = "addLast"
+			}
+			switch route {
+			case "addLast":
+				next++
+				s.op(0, "addLast", []int{next}, "", nil, nil, nil)
+				k--
+				budget--
+			case "addFirst":
+				n := k
+				if n > 300 {
+					n = 300
+				}
+				for i := n; i >= 1 && !w.poisoned; i-- {
+					s.op(0, "addFirst", []int{next + i}, "", nil, nil, nil)
+				}
+				next += n
+				k -= n
+				budget -= n
+			case "addAfterLast":
+				if w.poisoned {
+					return
+				}
+				if id, ok := lastID(q); ok {
+					next++
+					s.op(0, "addAfter", []int{id, next}, "", nil, nil, nil)
+				} else {
+					next++
+					s.op(0, "addLast", []int{next}, "", nil, nil, nil)
+				}
+				k--
+				budget--
+			case "tailTasks":
+				if qlen() == 0 {
+					next++
+					s.op(0, "addLast", []int{next}, "", nil, nil, nil)
+					k--
+				}
+				if w.cur == "nil" {
+					s.op(0, "pick", nil, "", nil, nil, nil)
+				}
+				if w.cur == "nil" || w.stuck {
+					budget--
+					continue
+				}
+				n := rng.Range(1, 400)
+				if n > k {
+					n = k
+				}
+				var tl []int
+				for i := 0; i < n; i++ {
+					next++
+					tl = append(tl, next)
+				}
+				s.op(0, "result", nil, PickOne(rng, []string{"keep", "success"}), nil, nil, tl)
+				k -= n
+				budget -= 2
+			}
+		}
+	}
+	shrink := func(left int, route string) {
+		if w.poisoned {
+			return
+		}
+		n := qlen() - left
+		if n <= 0 {
+			return
+		}
+		if route == "success" && (w.stuck || !worker) {
+			route = "removeHeadById"
+		}
+		if route == "success" && n > 150 {
+			n = 150 // every pick is a round trip through the worker goroutine
+		}
+		if n > budget {
+			n = budget
+		}
+		if route == "removeRandom" {
+			c.Note("shrink:removeRandom")
+			if n > 120 {
+				n = 120 // every hole splits a run of consecutive ids
+			}
+			for i := 0; i < n && !w.poisoned; i++ {
+				s.op(0, "remove", []int{rng.Range(1, next+1)}, "", nil, nil, nil)
+			}
+		} else {
+			s.shrink(0, route, qlen()-n, n)
+		}
+		budget -= n
+	}
+	if nominal {
+		c.Desc = fmt.Sprintf("burst of %d tasks queued at the tail, then taken out by the worker and by callers", peak)
+		for qlen() < peak && budget > 0 && !w.poisoned {
+			k := rng.Range(1, peak)
+			if k > peak-qlen() {
+				k = peak - qlen()
+			}
+			grow(k, PickOne(rng, []string{"addLast", "addLast", "tailTasks"}))
+		}
+		left := rng.Range(0, peak/8)
+		for qlen() > left && budget > 0 && !w.poisoned {
+			l := qlen() - rng.Range(1, peak)
+			if l < left {
+				l = left
+			}
+			shrink(l, PickOne(rng, []string{"removeHeadById", "removeHeadById", "success", "removeLast"}))
+		}
+		if rng.Chance(50) {
+			grow(rng.Range(1, 30), "addLast")
+			shrink(0, "removeHeadById")
+		}
+	} else {
+		c.Desc = fmt.Sprintf("queue of up to %d tasks, growth and removal phases by every route", peak)
+		for ph := rng.Range(3, 7); ph > 0 && budget > 0 && !w.poisoned; ph-- {
+			if l := qlen(); l < peak && (l == 0 || rng.Chance(55)) {
+				grow(rng.Range(1, peak-l), PickOne(rng, []string{"addLast", "addLast", "tailTasks", "addFirst", "addAfterLast"}))
+			} else {
+				shrink(rng.Range(0, l), PickOne(rng, append([]string{"removeRandom"}, c05DrainRoutes...)))
+			}
+		}
+	}
+	c.Nontrivial = true
+	switch {
+	case peak > 2048:
+		c.Note("burst:peak>2048")
+	case peak > 1024:
+		c.Note("burst:peak>1024")
+	case peak > 256:
+		c.Note("burst:peak>256")
+	default:
+		c.Note("burst:peak<=256")
+	}
+	if nominal {
+		c.Note("burst:nominal")
+	}
+}
+
 func runC05(r *Run) {
-	r.Rule = "random histories of the public TaskQueue operations (addFirst/addLast/addAfter/addBefore/remove/removeFirst/removeLast/Filter/Get) over ids 1..4 (ids present, absent, duplicated), a walk (Iterate) parked at its k-th element while Remove is attempted from another goroutine, a queue-dump family (pkg/task/dump over a set of 2..5 queues: per queue the reported length equals the tasks held and listed, the summary adds up), interleaved with worker picks and scripted handler results (Success/Keep/Fail/Repeat with head/after/tail tasks, in half of the results three slices of one backing array with spare capacity) on a real started queue; thorough adds every history of length <= 4 over 2 ids of the slice-level ops. A case is non-trivial when it has >= 3 ops and at least one op addressed an id (addAfter/addBefore/remove/get/result); distinct = distinct op-line sequences."
+	r.Rule = "random histories of the public TaskQueue operations (addFirst/addLast/addAfter/addBefore/remove/removeFirst/removeLast/Filter/Get) over ids 1..4 (ids present, absent, duplicated; task objects per case always fresh / 40% / always the object used before for the id, plus 'the previous add once more with the very same object'), a set family (2..3 live queues sharing ids and task objects, whole-queue drains by RemoveLast/RemoveFirst/Remove(head id)/Filter/worker Success followed by refills, after every op the items and length of EVERY queue are put to the oracle), a burst family (one queue grown to hundreds..thousands of tasks by AddLast/TailTasks/AddFirst/AddAfter and drained by Remove(id)/worker Success/RemoveLast/RemoveFirst/Filter, every step observed; half of them the operator's pattern tail-burst then worker), a walk (Iterate) parked at its k-th element while Remove is attempted from another goroutine, a queue-dump family (pkg/task/dump over a set of 2..5 queues: per queue the reported length equals the tasks held and listed, the summary adds up), interleaved with worker picks and scripted handler results (Success/Keep/Fail/Repeat with head/after/tail tasks, in half of the results three slices of one backing array with spare capacity) on a real started queue; thorough adds every history of length <= 4 over 2 ids of the slice-level ops (one task object per id). A case is non-trivial when it has >= 3 ops and at least one op addressed an id (addAfter/addBefore/remove/get/result); distinct = distinct op-line sequences."
 	// corpus: the minimal failing history of the repaired defect (addAfter with an absent id)
 	r.One(0, func(c *Case, _ *Rng) {
 		c.Desc = "corpus: addAfter/addBefore with an absent id"
@@ -474,11 +919,74 @@ func runC05(r *Run) {
 		c05Op(c, w, "pick", nil, "", nil, nil, nil)
 		c05Op(c, w, "result", []int{1}, "keep", []int{21, 22}, nil, []int{24, 25})
 	})
+	r.One(4, func(c *Case, _ *Rng) {
+		c.Desc = "corpus: the very same task object added twice in a row (tail, head, after, before, tail tasks of a result)"
+		c.Nontrivial = true
+		w := newWorkerQ("c05-corpus-4")
+		defer w.close()
+		w.pool = newTaskPool(nil, 0)
+		w.pool.force = true
+		for _, o := range []struct {
+			op   string
+			args []int
+		}{{"addLast", []int{1}}, {"addLast", []int{1}}, {"addFirst", []int{2}}, {"addFirst", []int{2}},
+			{"addAfter", []int{1, 3}}, {"addAfter", []int{1, 3}}, {"addBefore", []int{1, 3}}, {"addLast", []int{1}}, {"addLast", []int{1}}} {
+			c05Op(c, w, o.op, o.args, "", nil, nil, nil)
+		}
+		c05Op(c, w, "pick", nil, "", nil, nil, nil)
+		c05Op(c, w, "result", nil, "keep", []int{2, 2}, []int{4, 4}, []int{1, 1})
+	})
+	r.One(5, func(c *Case, _ *Rng) {
+		c.Desc = "corpus: two live queues, each drained by every removal route and refilled"
+		c.Nontrivial = true
+		s := &qset{c: c}
+		for i := 0; i < 2; i++ {
+			w := newWorkerQ(fmt.Sprintf("c05-corpus-5-%d", i))
+			defer w.close()
+			s.ws = append(s.ws, w)
+		}
+		next := 0
+		for _, route := range c05DrainRoutes {
+			for k := 0; k < 2; k++ {
+				next++
+				s.op(k, "addLast", []int{next}, "", nil, nil, nil)
+			}
+			for k := 0; k < 2; k++ {
+				s.shrink(k, route, 0, 4)
+			}
+			for k := 0; k < 2; k++ {
+				for j := 0; j < 2; j++ {
+					next++
+					s.op(k, "addLast", []int{next}, "", nil, nil, nil)
+				}
+			}
+			for k := 0; k < 2; k++ {
+				s.shrink(k, route, 0, 4)
+			}
+		}
+	})
 	r.Cases(500000, r.N(60, 600), 0, c05Dump)
+	r.Cases(600000, r.N(1200, 8000), 0, c05Set)
+	maxPeak := r.N(2600, 4500)
+	ct := r.CaseTimeout
+	r.CaseTimeout = 4 * time.Minute // thousands of observed steps per case; the machine may be loaded
+	// callers only (AddLast/AddFirst/AddAfter, Remove/RemoveLast/RemoveFirst/Filter), in parallel …
+	r.Cases(700000, r.N(16, 32), 0, func(c *Case, rng *Rng) { c05Burst(c, rng, maxPeak, false) })
+	// … and with the real worker (TailTasks of results, Success), one case at a time: a panic in the
+	// queue's own goroutine takes the process down, the supervisor then has exactly one case to blame
+	r.Cases(710000, r.N(4, 8), 1, func(c *Case, rng *Rng) { c05Burst(c, rng, maxPeak, true) })
+	r.CaseTimeout = ct
 	n := r.N(3000, 40000)
 	r.Cases(10, n, 0, func(c *Case, rng *Rng) {
 		w := newWorkerQ(fmt.Sprintf("c05-%d", c.Idx))
 		defer w.close()
+		// task objects: always fresh / sometimes / whenever possible the object used before for the id
+		w.pool = newTaskPool(rng, PickOne(rng, []int{0, 0, 40, 100}))
+		c.Note(fmt.Sprintf("objects:reuse%d%%", w.pool.pct))
+		var lastAdd struct {
+			op   string
+			args []int
+		}
 		withWorker := rng.Chance(40)
 		nops := rng.Range(2, 14)
 		idOps := 0
@@ -492,18 +1000,32 @@ func runC05(r *Run) {
 				}
 				return id()
 			}
-			k := rng.Intn(100)
+			k := rng.Intn(106)
+			add := func(op string, args []int) {
+				lastAdd.op, lastAdd.args = op, args
+				c05Op(c, w, op, args, "", nil, nil, nil)
+			}
 			switch {
+			case k >= 100:
+				// the previous add once more, with the very same task object
+				if lastAdd.op == "" {
+					add("addLast", []int{id()})
+					continue
+				}
+				w.pool.force = true
+				c05Op(c, w, lastAdd.op, lastAdd.args, "", nil, nil, nil)
+				w.pool.force = false
+				c.Note("op:same-object-again")
 			case k < 14:
-				c05Op(c, w, "addFirst", []int{fresh()}, "", nil, nil, nil)
+				add("addFirst", []int{fresh()})
 			case k < 30:
-				c05Op(c, w, "addLast", []int{id()}, "", nil, nil, nil)
+				add("addLast", []int{id()})
 			case k < 42:
 				idOps++
-				c05Op(c, w, "addAfter", []int{id(), fresh()}, "", nil, nil, nil)
+				add("addAfter", []int{id(), fresh()})
 			case k < 54:
 				idOps++
-				c05Op(c, w, "addBefore", []int{id(), fresh()}, "", nil, nil, nil)
+				add("addBefore", []int{id(), fresh()})
 			case k < 62:
 				idOps++
 				c05Op(c, w, "remove", []int{id()}, "", nil, nil, nil)
@@ -527,7 +1049,7 @@ func runC05(r *Run) {
 				c05Op(c, w, "iterRemove", []int{rng.Intn(4), id()}, "", nil, nil, nil)
 			default:
 				if !withWorker {
-					c05Op(c, w, "addLast", []int{fresh()}, "", nil, nil, nil)
+					add("addLast", []int{fresh()})
 					continue
 				}
 				if w.cur == "nil" {
@@ -586,6 +1108,9 @@ func runC05(r *Run) {
 			}
 			w := newWorkerQ(fmt.Sprintf("c05x-%d", c.Idx))
 			defer w.close()
+			// one task object per id: a repeated id is the very same object again
+			w.pool = newTaskPool(nil, 0)
+			w.pool.force = true
 			var names []string
 			for i := 0; i < l; i++ {
 				o := alphabet[k%A]
